@@ -178,6 +178,9 @@ def exec (c : Ctx) : Stmt → Env → Env
   | .release p, e =>
     match p, evalP e p with
     | .self, .slot v => emit e (c.relOf v)
+    | .loc _, .alias v =>
+      -- through a local copy of the object's own pointer (`Data* old = data; …; release(old)`), before `data` is overwritten
+      if v = c.d ∧ e.self = .slot c.d then emit e (c.relOf v) else fail e
     | _, _ => fail e
   | .store dst src, e =>
     match dst, evalP e src with
